@@ -25,12 +25,14 @@ LEVEL_TEXT = ("Coq theorems, all unbounded over histories (induction over the op
               "ts_refines (every successful single op acts on each layer's template set exactly as the abstract template machine: add / "
               "remove one template, drop a variable's templates, drop templates longer than the new window; batches are atomic "
               "sequences of single ops and are covered by the invariant and atomicity theorems, not by ts_refines). Nothing is bounded. "
+              "Six old_*_refuted theorems (C13/Refuted.v) are witness statements about an as-is transcription of the code BEFORE the "
+              "repairs 35e75c8 / 9a3603d (documentation only; the transcription is not tied to any tree). "
               "The tie of the model to /repo is by correspondence only: the extracted model and the real classes are run on the same "
               "histories (exhaustive short ones over a reduced alphabet, seeded random ones of length 20 / 150) and the full observable "
               "state is compared after every op.")
-LEVEL_NOTE = ("The model is the INTENDED machine: on the unpatched /repo the check reports set_max_lag (growth incomplete, shrink raises after "
+LEVEL_NOTE = ("The model is the INTENDED machine: before the repairs 35e75c8 / 9a3603d of /repo the check reported set_max_lag (growth incomplete, shrink raises after "
               "overwriting max_lag, mixed-edge layers keep their old max_lag, CPDAG TypeError) and non-atomic add_edges_from / "
-              "remove_edges_from; fixes/C13-set-max-lag.patch and fixes/C13-batch-atomic.patch make it pass. The property lets a raising "
+              "remove_edges_from; fixes/C13-set-max-lag.patch and fixes/C13-batch-atomic.patch (both applied) repaired them. The property lets a raising "
               "op register new variables; the harness then removes them again (resync) to stay aligned with the stricter model. Exception "
               "classes are not compared. Modelled, not verified: networkx containers, tsdict key validation (as the node-validity "
               "guard), the CPDAG insertion guard (C03's subject, transcribed). Outside the model: edge_type='all', positive time "
@@ -45,10 +47,17 @@ OPC = {"ae": 0, "aes": 1, "re": 2, "res": 3, "av": 4, "rv": 5, "sml": 6, "cp": 7
 
 RULE = ("histories per class shape (5 shapes): every sequence of exactly 2 (quick) / 3 (thorough) ops over a reduced alphabet "
         "(per layer: add lagged, add contemporaneous, remove lagged; add/remove variable, set_max_lag 1/2/3, copy, one batch) from "
-        "max_lag 1 and 2, a sample of length-3 sequences (quick), then seeded random histories of length 20 (quick) / 150 (thorough) "
-        "over 2-3 variables, max_lag 1..4, lags 0..max_lag+1, all op kinds; every prefix is compared. distinct by (class, L, ops); "
-        "non-trivial = some state of the history has an edge and the history contains a successful set_max_lag or variable removal "
-        "or copy after that")
+        "max_lag 1 and 2, a sample of length-3 sequences (quick); a boundary stream (per layer a variable with edges at lags 0, 1 and "
+        "max_lag, then every pair out of: remove that / the other variable, set_max_lag to the same value / +2 / +3 / 1 / 0, copy, empty "
+        "batch, batch listing one edge twice, batch with a bad edge between two copies of a good one); a stale-state stream (warm-up "
+        "queries, then a node-count-preserving edit: swap a variable, move an edge to another variable / lag / layer, then set_max_lag / "
+        "copy / remove_variable); seeded random histories of length 20 (quick) / 150 (thorough) over 2-3 variables, max_lag 1..4, lags "
+        "0..max_lag+1, all op kinds, duplicates in batches; the same with variables named like lag tuples ((v,0), (v,-1)) and with "
+        "constructor edge lists (modelled as add_edges_from on the empty graph). Variants (case['var'] seeds them per op): batch argument "
+        "as list / tuple / generator / iterator, the list argument compared before/after, warm-up queries before ops and before copy(), "
+        "on the graph and on every original a copy was taken from; always: a twin object built from the same constructor arguments must "
+        "stay as built. Every prefix is compared. distinct by (class, L, ops, init, variant seed, label family); non-trivial = some state "
+        "of the history has an edge and the history contains a successful set_max_lag or variable removal or copy after that")
 EXHAUSTIVE = {"quick": "all length-2 histories over the reduced alphabet, 5 class shapes, initial max_lag 1 and 2",
               "thorough": "all length-3 histories over the reduced alphabet, 5 class shapes, initial max_lag 1 and 2"}
 TRUSTED = ["networkx Graph/DiGraph add_edge/remove_edge/remove_node/has_edge taken at face value",
@@ -57,7 +66,16 @@ ASSUMPTIONS = ["edge type always passed explicitly for mixed-edge classes (edge_
                "undirected-type layers and the circle layer are called with the earlier node first (documented convention); "
                "a later-node-first add_edge must raise (15% of the random edge arguments)",
                "positive time indices and non-tuple nodes are outside the model (lags are nat magnitudes)",
-               "int variable labels (label families: C15)", "edge/node attributes are not part of the property",
+               "int variable labels, plus one stream with variables named like lag tuples (other label families: C15)",
+               "edge/node attributes are not part of the property; 3-tuple (u, v, data) batch elements are not passed (the CPDAG batch "
+               "method unpacks pairs)",
+               "non-stationary instances (constructor argument stationary=False / set_stationarity(False)) are NOT modelled: the property's "
+               "subject is the stationary graph, for them shift-completeness is not intended and add/remove act on single edges "
+               "(remove_edge of an absent edge raises NetworkXError); observed on the current code, outside the quantifier and not "
+               "judged: copy() of such an instance builds self.__class__() and therefore returns a STATIONARY graph whose re-added edges "
+               "get all homologous copies (copy != original)",
+               "StationaryTimeSeriesMixedEdgeGraph built from layer graphs: constructor edge lists of the second layer only mention variables "
+               "of the first (MixedEdgeGraph.__init__ registers graphs[0].nodes only: C02's subject, fixes/C02-ctor-node-union.patch)",
                "CPDAG batches are validated against the evolving state (the C03 repair 291cb6e of add_edges_from), as in the model"]
 SPOT_N = 12
 IMPL_TIMEOUT = 60
